@@ -43,7 +43,10 @@ pub fn check_tree(ctx: &Ctx, c: &Case, count: bool) -> Verdict {
     for f in &tree.files { paths.push(f.url.clone()); if let Some(s) = f.url.strip_suffix(".html") { if !s.ends_with('/') { paths.push(s.to_string()); } } }
     for d in &tree.dirs { if d.url != "/" && d.has_index { paths.push(d.url.clone()); paths.push(format!("{}/", d.url)); } }
     paths.sort(); paths.dedup();
-    let fixed_variants: [(&str, &str); 4] = [
+    let fixed_variants: [(&str, &str); 6] = [
+        // what a browser sends for fetch(url, {method: 'PUT'}) without custom headers, and for a GET with a custom header
+        ("preflight-method-only", "Origin: https://app.example\r\nAccess-Control-Request-Method: PUT\r\n"),
+        ("preflight-headers-only", "Origin: https://app.example\r\nAccess-Control-Request-Headers: X-Custom, Content-Type\r\n"),
         ("plain", ""),
         ("origin", "Origin: https://app.example\r\n"),
         ("preflight", "Origin: https://app.example\r\nAccess-Control-Request-Method: PUT\r\nAccess-Control-Request-Headers: X-Custom, Content-Type\r\n"),
@@ -85,17 +88,19 @@ pub fn check_tree(ctx: &Ctx, c: &Case, count: bool) -> Verdict {
                 // OPTIONS
                 if o.status / 100 != 2 { problems.push((format!("options-status-{}{}", o.status, if legacy { ":legacy" } else { "" }), format!("OPTIONS {} -> {} where GET -> {}", tag, o.status, g.status))); break 'outer; }
                 if !o.body.is_empty() { problems.push(("options-response-has-body".into(), format!("OPTIONS {} carries {} body bytes", tag, o.body.len()))); break 'outer; }
-                if *vname == "origin" || *vname == "preflight" {
+                if *vname == "origin" || vname.starts_with("preflight") {
                     if o.get("Access-Control-Allow-Origin") != Some("https://app.example") { problems.push(("options-without-allow-origin-grant".into(), format!("OPTIONS {}: Access-Control-Allow-Origin {:?}", tag, o.get("Access-Control-Allow-Origin")))); break 'outer; }
                     if o.get("Access-Control-Allow-Credentials") != Some("true") { problems.push(("options-without-credentials-grant".into(), format!("OPTIONS {}", tag))); break 'outer; }
                 }
+                if *vname == "preflight-method-only" && o.get("Access-Control-Allow-Methods") != Some("PUT") { problems.push(("preflight-methods-grant-wrong".into(), format!("OPTIONS {}: Access-Control-Allow-Methods {:?}", tag, o.get("Access-Control-Allow-Methods")))); break 'outer; }
+                if *vname == "preflight-headers-only" && o.get("Access-Control-Allow-Headers").map(|v| v.to_lowercase()) != Some("x-custom, content-type".to_string()) { problems.push(("preflight-headers-grant-wrong".into(), format!("OPTIONS {}: Access-Control-Allow-Headers {:?}", tag, o.get("Access-Control-Allow-Headers")))); break 'outer; }
                 if *vname == "preflight" {
                     if o.get("Access-Control-Allow-Methods") != Some("PUT") { problems.push(("preflight-methods-grant-wrong".into(), format!("OPTIONS {}: Access-Control-Allow-Methods {:?}", tag, o.get("Access-Control-Allow-Methods")))); break 'outer; }
                     if o.get("Access-Control-Allow-Headers").map(|v| v.to_lowercase()) != Some("x-custom, content-type".to_string()) { problems.push(("preflight-headers-grant-wrong".into(), format!("OPTIONS {}: Access-Control-Allow-Headers {:?}", tag, o.get("Access-Control-Allow-Headers")))); break 'outer; }
                 }
                 let nt = path != "/";
                 *classes.entry(match &sel { Selected::File { rule, .. } => match *rule { "dir-index" => "dir-index", "html-fallback" => "html-fallback", "root-index" => "root-index", "asset" => "asset-file", _ => "file" }, Selected::BuiltIn(_) => "built-in", _ => "?" }).or_insert(0) += 1;
-                *classes.entry(match *vname { "plain" => "variant-plain", "origin" => "variant-origin", "preflight" => "variant-preflight", "vocabulary" => "variant-vocabulary-headers", _ => "variant-range" }).or_insert(0) += 1;
+                *classes.entry(match *vname { "plain" => "variant-plain", "origin" => "variant-origin", "preflight" => "variant-preflight", "preflight-method-only" => "variant-preflight-method-only", "preflight-headers-only" => "variant-preflight-headers-only", "vocabulary" => "variant-vocabulary-headers", _ => "variant-range" }).or_insert(0) += 1;
                 if legacy { *classes.entry("legacy-entry").or_insert(0) += 1; }
                 if count && nt {
                     ctx.nontrivial.borrow_mut().insert(hash64(&(hash64(&format!("{:?}", c.tree)), path.clone(), *vname, legacy)));
